@@ -132,6 +132,31 @@ def cases(seed, tier):
                 c["script"][0]["inject"] = [{"id": "p", "at": {"msg": 7 if variant == "pause" else 9, "plus": rng.choice([0, 1, 2])}, "do": "pause"}]
                 c["script"][0]["decisions"] = [{"do": "resume"}]
             yield c
+    # the plan has handled a failure and is busy with its recovery / clean-up when a pause and resume happen: the device
+    # keeps failing (a persistent fault), but the failure that was delivered is not delivered again at whatever the
+    # plan is doing now
+    if pg.motors:
+        m = pg.motors[0]
+        for j in range(2):
+            g = pg.group()
+            handler = [msg(S, "null"), msg(S, "sleep", None, 0.3), msg(S, "null")]
+            failing = [msg(S, "set", m, 4.0, group=g), msg(S, "wait", None, group=g)]
+            if rng.random() < 0.5:
+                node = {"op": "try", "site": S(), "body": failing, "handlers": [{"exc": "Exception", "body": handler, "reraise": False}]}
+            else:
+                node = {"op": "try", "site": S(), "body": failing, "finally": handler}
+            plan = [msg(S, "checkpoint"), msg(S, "null"), node, msg(S, "null")]
+            c = copy.deepcopy(case)
+            c["variant"] = f"handled-failure-then-pause-{j}"
+            c["script"][0]["plan"] = plan
+            for dev in c["devices"].values():
+                dev.pop("faults", None)
+            # (a synchronous failure: the message itself failed.  A status that fails later belongs to a message that
+            # succeeded and is legitimately executed again by the replay - its new failure is a new one: not asserted)
+            c["devices"][m]["faults"] = {"set#0+": {"kind": "raise", "exc": "RuntimeError"}}
+            c["script"][0]["inject"] = [{"id": "p", "at": {"msg": rng.choice([4, 5, 6]), "plus": rng.choice([0, 1, 2])}, "do": "pause"}]
+            c["script"][0]["decisions"] = [{"do": "resume"}]
+            yield c
     # the messages that address several objects at once ('locate' a, b ...): one of the devices fails, synchronously
     # or after really awaiting; the error belongs to that yield like any other
     if len(pg.motors) >= 1:
@@ -172,6 +197,20 @@ def check(res):
                 return e
         return None
 
+    if str(res.case.get("variant", "")).startswith("handled-failure-then-pause"):
+        # one operation failed once in the plan's eyes (the device keeps failing, but the plan asked only once)
+        thrown_all = [e for e in plan if e.d["what"] == "thrown" and str(e.d["exc"]).startswith(("Injected", "FailedStatus"))]
+        res.notes["handled_failure_then_pause"] = 1
+        if len(thrown_all) > 1:
+            x = thrown_all[1]
+            out.append(
+                V(
+                    "failure-delivered-again-after-resume",
+                    f"the failure the plan had already been given at site {thrown_all[0].d['site']} was thrown again ({x.d['exc']}) at site {x.d['site']} after the pause and resume",
+                    exc=x.d["exc"],
+                )
+            )
+        return out
     faults = [e for e in evs if e.kind == "dev" and e.d.get("fault")]
     if len(faults) != 1:
         return out
